@@ -253,7 +253,7 @@ CHECKS["C07"] = {
         H("c07.VH_alpn", {"EXT": 10}, {"EXT": 12}, covers=["accepted by crypto/tls", "alpn matches"], weight=6),
         H("c07.VH_alpn", {"EXT": 9, "EMPTYCFG": 1}, {"EXT": 11, "EMPTYCFG": 1}, variant="empty-config-value", covers=["accepted by crypto/tls", "alpn matches"], weight=5),
         H("c07.VH_two_hellos", {}, {}, covers=["second hello matched"], weight=1),
-        H("c07.VH_record", {"L": 50}, {"L": 58}, covers=["header incomplete", "not a handshake record", "hello incomplete", "hello complete"], weight=3),
+        H("c07.VH_record", {"L": 50}, {"L": 53}, covers=["header incomplete", "not a handshake record", "hello incomplete", "hello complete"], weight=3),
     ],
     "level_text": "bounded differential model checking: the repository's parseRawClientHello and the standard library's own clientHelloMsg.unmarshal + clientHelloInfo (the live crypto/tls of the Go that builds the repository, reached through an overlay shim, both executed from SSA) run on the same symbolic ClientHello; whenever crypto/tls accepts the hello, server name, ALPN list, supported versions, cipher suites, curves, point formats and signature schemes must be equal; the alpn sub-matcher must equal exact membership in the server's list; record type / incomplete-hello rules of MatchTLS.Match are asserted directly",
     "level_note": "hello = free fixed part (session id <= 1 byte, 1-2 cipher suites, 1 compression method, version fixed to 0x0303 except in the 'versions' variant) + extension block that is a free byte string of <= 10 (quick) / 12 (thorough) bytes, optionally preceded by one concrete extension (session_ticket with a non-empty ticket, ec_point_formats, renegotiation_info, SCT); real ClientHellos (200-1800 bytes, key shares, many extensions) are far outside this bound",
